@@ -282,6 +282,13 @@ def judge_c06(scn, result):
     return None
 
 
+def judge_c07(scn, result):
+    """no sequence of API calls makes a thread of the library terminate with an unhandled error"""
+    if result["uncaught"]:
+        return f"a library thread died of an uncaught exception: {result['uncaught']!r}"
+    return None
+
+
 def run(res, tier, lean, prop="C04", proof_breaks=(), build_log=""):
     r = common.rng("obs-" + prop)
     thorough = tier == "thorough"
@@ -312,7 +319,7 @@ def run(res, tier, lean, prop="C04", proof_breaks=(), build_log=""):
     res.notes["runs_with_one_dispatcher"] = sum(1 for o in outs_full if "oneDispatcher=1" in o)
     res.notes["runs_replayed"] = len(outs_full)
     bad, judged = [], []
-    judges = {"C04": [judge_c04, judge_c05, judge_c04_gap], "C05": [judge_c05], "C06": [judge_c06]}[prop]
+    judges = {"C04": [judge_c04, judge_c05, judge_c04_gap], "C05": [judge_c05], "C06": [judge_c06], "C07": [judge_c07]}[prop]
     for line, o, i, (name, scn, result) in zip(lines, outs, impl, meta):
         res.count()
         if any(h.startswith("call:") for h in result["hist"]):
